@@ -153,7 +153,7 @@ theorem cleared_fixpoint {bs p} (hp : parsePackage bs = .ok p) :
     subst hp
     obtain ⟨_, _, _, _, _, _, _, wf⟩ := parseMetadata_ok h1
     exact wf
-  have ewf : HeaderWF Header.empty := ⟨rfl, rfl, by decide, by decide, fun _ h => (nomatch h), fun _ h => (nomatch h)⟩
+  have ewf : HeaderWF Header.empty := ⟨rfl, rfl, by decide, by decide, fun _ h => (nomatch h), fun _ h => (nomatch h), Nat.le_refl 0⟩
   have wf' : MetadataWF p'.md := ⟨wf.lead, ewf, wf.hdr⟩
   refine ⟨rfl, ?_, (wf_fixpoint wf').1, (wf_fixpoint wf').2⟩
   have e : writeSignature Header.empty = writeIntro 0 0 := rfl
